@@ -40,6 +40,8 @@ def beh(b, it):
         return '(BInt %d%%Z)' % b[1]
     if b[0] == 'str':
         return '(BStr %d)' % it.id(b[1])
+    if b[0] == 'strep':
+        return '(BStrEp %s)' % lst(str(it.id(l)) for l in b[1])
     if b[0] == 'receven':
         return '(BRecEven %d)' % b[1]
     return '(BRecur %d)' % b[1]
